@@ -148,7 +148,12 @@ def close(run, p, km, gm):
     for kind, cname, agg in (('min_length', 'MinLengthConstraint', 'min'), ('max_length', 'MaxLengthConstraint', 'max')):
         for c in emitted(cname):
             ver = km[kind][0]
-            clo = dep_closure_at(dn, c.args[0])
+            from .common import closure_aggregates, running_extremes
+            clo = closure_aggregates(dn, dep_closure_at(dn, c.args[0]))
+            rx = running_extremes(dn)
+            direct = {rx[n0] for n0 in names_in(c.args[0]) if n0 in rx}
+            if direct:
+                clo = (clo - {'min', 'max'}) | direct
             t = tables.table(ver.node, tables.pick_result())
             vclo = calcs(dep_closure(ver.node, names_in(t[0][3].value.left)), gm) if t and isinstance(t[0][3].value, ast.Compare) else set()
             same_stat = calcs(clo, gm) == vclo and bool(vclo)
